@@ -1,7 +1,7 @@
 (* C12 — Checkpoints restore to exactly the checkpointed state.
    Only statements; proofs are in Ckpt/*.v.  Model: Ckpt/Model.v. *)
 From Verif Require Import Lib.Base Mkvs.Trie Mkvs.TrieProofs Mkvs.HashProofs
-  Ckpt.Model Ckpt.Proofs Ckpt.ParProofs Ckpt.RestoreProofs Ckpt.Examples Ckpt.Main Ckpt.Stack Ckpt.StackProofs Ckpt.EstProofs Ckpt.StackSim Gen.CkptConsts.
+  Ckpt.Model Ckpt.Proofs Ckpt.ParProofs Ckpt.RestoreProofs Ckpt.Examples Ckpt.Main Ckpt.Stack Ckpt.StackProofs Ckpt.EstProofs Ckpt.StackSim Ckpt.Frame Gen.CkptConsts.
 From Coq Require Import Permutation.
 
 (* sequential chunker: the key runs visited by the chunks, concatenated, are
@@ -227,3 +227,103 @@ Theorem seq_is_iterated_next_run : forall size t,
   contents t <> [] -> seq_runs size t = iter_runs (length (contents t)) size (annot 0 t).
 Proof. exact seq_runs_iter_l. Qed.
 Print Assumptions seq_is_iterated_next_run.
+
+(* ---- round 3 ---- *)
+
+(* (1) the ported stack machine of the parallel chunker, for EVERY well-formed
+   tree (the empty one included), every chunk size and every thread count >= 1:
+   it terminates; every chunk it emits recomputes to the root and carries only
+   pairs of the tree; every pair of the tree is carried by some chunk; the keys
+   it visits are pairwise distinct pairs of the tree (no key is visited twice)
+   and every chunk visits them in key order; and restoring its chunks in any
+   order, each any number of times, gives exactly the contents *)
+Theorem stack_create_restore_exact : forall H t size n, wf t ->
+  exists res, s_par H size (S n) t = Some (res, []) /\
+    (forall c, In c (map fst res) -> phash H c = root_hash H t /\ incl (pleaves c) (contents t)) /\
+    (forall e, In e (contents t) -> exists c, In c (map fst res) /\ In e (pleaves c)) /\
+    NoDup (concat (map snd res)) /\ Forall sorted (map snd res) /\
+    incl (concat (map snd res)) (contents t) /\
+    (forall l, (forall c, In c l -> In c (map fst res)) -> (forall c, In c (map fst res) -> In c l) ->
+               fold_left (fun s c => import c s) l [] = contents t).
+Proof. exact Main.stack_create_restore_exact_l. Qed.
+Print Assumptions stack_create_restore_exact.
+
+Theorem par_runs_disjoint : forall size threads t, wf t ->
+  NoDup (concat (fst (par_runs size threads t))) /\
+  incl (concat (fst (par_runs size threads t))) (contents t) /\
+  Forall sorted (fst (par_runs size threads t)).
+Proof. exact Main.par_runs_disjoint_sorted_l. Qed.
+Print Assumptions par_runs_disjoint.
+
+(* (2) restorer bookkeeping.  A call answered with ErrChunkCorrupted,
+   ErrChunkAlreadyRestored, ErrNoRestoreInProgress or
+   ErrRestoreAlreadyInProgress changes neither the restorer nor the database *)
+Theorem rejected_delivery_is_noop : forall H Hd decode root digests s e,
+  rejected (snd (rstep H Hd decode root digests s e)) -> fst (rstep H Hd decode root digests s e) = s.
+Proof. exact rejected_is_noop_l. Qed.
+Print Assumptions rejected_delivery_is_noop.
+
+(* a failed proof verification aborts the restorer and imports nothing *)
+Theorem proof_failure_aborts : forall H Hd decode root digests s i b,
+  snd (rstep H Hd decode root digests s (EChunk i b)) = RProofFail ->
+  fst (rstep H Hd decode root digests s (EChunk i b)) = mkr false [] (db s).
+Proof. exact proof_failure_aborts_l. Qed.
+Print Assumptions proof_failure_aborts.
+
+(* a history with a rejected delivery removed ends in the same state: a
+   corrupt chunk never changes what the final state is *)
+Theorem history_without_rejected : forall H Hd decode root digests s e1 e e2,
+  rejected (snd (rstep H Hd decode root digests (rrun H Hd decode root digests s e1) e)) ->
+  rrun H Hd decode root digests s (e1 ++ e :: e2) = rrun H Hd decode root digests s (e1 ++ e2).
+Proof. exact history_without_rejected_l. Qed.
+Print Assumptions history_without_rejected.
+
+(* any history that ends with done, then Finalize with the checkpoint's root:
+   exactly the checkpointed contents; Finalize with another root fails *)
+Theorem finalize_after_done_exact : forall H Hd decode enc,
+  (forall c, decode (enc c) = Some c) ->
+  forall size threads t, wf t -> forall evs,
+  let cs := chunks H size threads t in
+  let digests := map (fun c => Hd (enc c)) cs in
+  let s := rrun H Hd decode (root_hash H t) digests (mkr false [] []) evs in
+  forall i b s', rstep H Hd decode (root_hash H t) digests s (EChunk i b) = (s', ROk) ->
+                 active s' = false ->
+                 rfinalize (root_hash H t) (root_hash H t) s' = Some (contents t) \/ collision Hd.
+Proof. exact Main.finalize_after_done_exact_l. Qed.
+Print Assumptions finalize_after_done_exact.
+
+Theorem finalize_root_mismatch : forall root r s, r <> root -> rfinalize root r s = None.
+Proof. exact finalize_root_mismatch_l. Qed.
+Print Assumptions finalize_root_mismatch.
+
+(* (3) framing.  A chunk file whose bytes differ from the created ones is
+   refused by the digest check before anything is decoded, verified or
+   written, unless the digest function collides on the two files *)
+Theorem altered_chunk_rejected : forall H Hd decode root good b st,
+  b <> good ->
+  restore_chunk H Hd decode root (Hd good) b st = (RCorrupted, st) \/ collision Hd.
+Proof. exact altered_chunk_rejected_l. Qed.
+Print Assumptions altered_chunk_rejected.
+
+(* the CBOR stream layer: what writeChunk frames parses back to exactly the
+   entries written (byte strings shorter than 2^64, nulls) *)
+Theorem unframe_frame : forall es fuel,
+  (length es < fuel)%nat ->
+  Forall (fun e => match e with Some b => N.of_nat (length b) < 2 ^ 64 | None => True end) es ->
+  unframe fuel (frame es) = Some es.
+Proof. exact unframe_frame_l. Qed.
+Print Assumptions unframe_frame.
+
+(* a created chunk file (snappy abstract: any pair with unsnap (snap x) = Some x)
+   reads back to exactly the proof entries of its chunk *)
+Theorem chunk_file_roundtrip : forall snap unsnap, (forall x, unsnap (snap x) = Some x) ->
+  forall p, entries_bounded (entries_of p) -> file_entries unsnap (chunk_file snap p) = Some (entries_of p).
+Proof. exact file_roundtrip_l. Qed.
+Print Assumptions chunk_file_roundtrip.
+
+(* the size estimate counts exactly the bytes of the full proof entries *)
+Theorem entry_sizes_are_costs : forall lbl lf k v,
+  N.of_nat (length (1 :: leaf_bin k v)) = leaf_cost k v /\
+  N.of_nat (length (1 :: node_bin lbl lf)) = node_cost lbl lf.
+Proof. exact Main.entry_sizes_are_costs_l. Qed.
+Print Assumptions entry_sizes_are_costs.
